@@ -1348,6 +1348,30 @@ def rule_X4(F, R, clauses=('parse', 'order', 'model', 'retain', 'export', 'vars'
                     bindpat(s_['pat'], tv(s_['init'], val), val)
                 else:
                     run_expr(s_['expr'], val)
+        # every row starts from the assignment `all Any`: the values handed to the two recursive printers are built from the constant Any only
+        for x_ in walk(body):
+            if x_['k'] == 'Call' and callee_name(x_) in ('rsbdd::print_truth_table_recursive', 'rsbdd::print_true_vars_recursive'):
+                pt_ = binc.ithir.get(callee_name(x_))
+                vi_ = role_index(pt_, 'values') if pt_ is not None else 1
+                arg_ = x_['args'][vi_] if vi_ < len(x_['args']) else None
+                consts_ = set()
+                if arg_ is not None:
+                    nodes_ = list(walk(arg_))
+                    for y_ in list(nodes_):
+                        if y_['k'] == 'Closure' and canon(y_['def']) in binc.ithir: nodes_.extend(walk(binc.ithir[canon(y_['def'])]['body']))
+                    rv_ = root_var(arg_)
+                    if rv_ is not None and strip(arg_)['k'] in ('VarRef', 'UpvarRef'):
+                        for b2_ in walk(body):
+                            if b2_['k'] == 'Block':
+                                for st2_ in b2_['stmts']:
+                                    if st2_['k'] == 'Let' and st2_.get('init') is not None and unwrap_pat(st2_['pat']).get('var') == rv_:
+                                        nodes_.extend(walk(st2_['init']))
+                                        for y_ in list(walk(st2_['init'])):
+                                            if y_['k'] == 'Closure' and canon(y_['def']) in binc.ithir: nodes_.extend(walk(binc.ithir[canon(y_['def'])]['body']))
+                    consts_ = set(y_['variant'] for y_ in nodes_ if y_['k'] == 'Adt' and canon(y_['adt']) == TTE)
+                oki_ = consts_ == {'Any'}
+                R.count('X4:initial-assignment'); R.obligation(oki_, 'X4 initial assignment %s' % x_.get('loc'))
+                if not oki_: R.violation('rsbdd::main / X4 / initial assignment', 'X4', 'the printers must start from the assignment in which every free variable is Any; the values handed over are built from %s' % (sorted(consts_) or 'no constant'), x_.get('loc'))
         b0 = body
         while b0['k'] in ('Use', 'NeverToAny'): b0 = b0['source']
         val0 = {}
